@@ -1,7 +1,7 @@
 (* C18, global level: steps of the network, reachability, the silent-follower invariant. *)
 From Coq Require Import ZArith NArith List Bool Lia ZifyBool ZifyN.
 From RecordUpdate Require Import RecordSet.
-From PSO Require Import Raft.Types Raft.Node Raft.Net Raft.Obs Raft.ProofsReadonlyFrames Raft.ProofsReadonlyA.
+From PSO Require Import Raft.Types Raft.Node Raft.Net Raft.ProofsReadonlyFrames Raft.ProofsReadonlyA.
 Import ListNotations.
 Import RecordSetNotations.
 Open Scope N_scope.
@@ -122,12 +122,20 @@ Lemma all_nodes_pre : forall I c g ev x n s, all_nodes I g -> nstep c g ev x (So
 Proof. intros I c g ev x n s HI H. inversion H; subst; apply HI; apply aget_In; assumption. Qed.
 
 (* ---- reachability ---- *)
-Definition reachable_by (V : event -> Prop) (c : conf) (g : gstate) : Prop :=
-  exists evs, Forall V evs /\ run_trace c ginit evs = Some g.
+(* the same function as Obs.run_trace (see ProofsReadonlyFinal.run_trace_is_run); defined here so that
+   the proofs do not depend on the observation/digest code of Obs.v *)
+Fixpoint run (c : conf) (g : gstate) (evs : list event) : option gstate :=
+  match evs with
+  | [] => Some g
+  | ev :: r => match gstep c g ev with Some (g', _) => run c g' r | None => None end
+  end.
 
-Lemma run_trace_inv : forall (P : gstate -> Prop) (V : event -> Prop) c,
+Definition reachable_by (V : event -> Prop) (c : conf) (g : gstate) : Prop :=
+  exists evs, Forall V evs /\ run c ginit evs = Some g.
+
+Lemma run_inv : forall (P : gstate -> Prop) (V : event -> Prop) c,
   (forall g ev g' r, P g -> V ev -> gstep c g ev = Some (g', r) -> P g') ->
-  forall evs g0 g, P g0 -> Forall V evs -> run_trace c g0 evs = Some g -> P g.
+  forall evs g0 g, P g0 -> Forall V evs -> run c g0 evs = Some g -> P g.
 Proof.
   intros P V c Hstep evs; induction evs as [|ev evs IH]; intros g0 g H0 HV H; cbn in H.
   - inversion H; subst; exact H0.
@@ -138,7 +146,7 @@ Qed.
 Lemma reachable_inv : forall (P : gstate -> Prop) (V : event -> Prop) c,
   P ginit -> (forall g ev g' r, P g -> V ev -> gstep c g ev = Some (g', r) -> P g') ->
   forall g, reachable_by V c g -> P g.
-Proof. intros P V c H0 Hs g (evs & HV & H). eapply run_trace_inv; eauto. Qed.
+Proof. intros P V c H0 Hs g (evs & HV & H). eapply run_inv; eauto. Qed.
 
 Definition any_event (ev : event) : Prop := True.
 Definition reachable := reachable_by any_event.
